@@ -25,7 +25,7 @@ from .lib import UserVal, UserFn, install_user_hooks
 PROPERTY = "C12"
 PRED = "krrood.entity_query_language.predicate"
 SYM = "krrood.entity_query_language.symbolic"
-FUNCTIONS = [(PRED, "merge_args_and_kwargs"), (PRED, "symbolic_function"), (PRED, "Predicate.__new__"),
+FUNCTIONS = [(PRED, "merge_args_and_kwargs"), (PRED, "get_function_argument_names"), (PRED, "symbolic_function"), (PRED, "Predicate.__new__"),
              (PRED, "Symbol.__new__"), (PRED, "update_cache"), (PRED, "HasType.__call__"),
              (SYM, "_any_of_the_kwargs_is_a_variable"),
              (SYM, "Variable._instantiate_using_child_vars_and_yield_results_"),
@@ -92,7 +92,13 @@ def names_of(vm, fn):
 
 def install(vm):
     install_user_hooks(vm)
-    vm.spec.stubs[f"{PRED}:get_function_argument_names"] = lambda it, a, k: PyList(names_of(it, a[0]))
+    # assumed contract of inspect.signature(f).parameters (an ordered mapping of the parameters of *that* callable)
+    def signature(it, fr, a, k):
+        o = it.alloc(it.ext("object"), {}, tag="signature")
+        o.fields["parameters"] = make_dict([(n, None) for n in names_of(it, a[0])])
+        return o
+    vm.builtins = dict(vm.builtins)
+    vm.builtins["inspect.signature"] = Builtin("inspect.signature", signature)
     made = []
 
     def fake_variable(it, a, k):
@@ -114,6 +120,8 @@ def install(vm):
     def getattr_(it, v, name):
         if isinstance(v, UserFn) and name in ("__name__", "__qualname__"):
             return v.name
+        if isinstance(v, UserFn) and name == "__module__":
+            return "user_module"
         return g(it, v, name)
     vm.spec.opaque_hooks["getattr"] = getattr_
     return made
@@ -133,12 +141,13 @@ def dict_is(d, expected):
 
 
 def splits(n):
-    """(P, kw_names): P leading positional arguments, the rest given by keyword (all of them or none)."""
+    """(P, kw): P leading positional arguments and any subset of the remaining parameters given by keyword (parameters
+    that are left out have defaults)."""
     for p in range(n + 1):
         rest = list(range(p, n))
-        yield p, rest
-        if rest:
-            yield p, []
+        for r in range(len(rest), -1, -1):
+            for kw in itertools.combinations(rest, r):
+                yield p, list(kw)
 
 
 # ------------------------------------------------------------------ merge_args_and_kwargs
@@ -171,6 +180,22 @@ def h_merge():
     return Harness("merge", run, spec=Spec())
 
 
+def h_argument_names():
+    """get_function_argument_names answers for the callable it is given, also when another callable with the same
+    module and qualified name (a redefinition, a factory product) was asked about before."""
+    def run(vm):
+        ctx = vm.ctx
+        install(vm)
+        gfan = vm.module_global(PRED, "get_function_argument_names")
+        f1, f2 = UserFn("helper", ["a", "b"]), UserFn("helper", ["x", "y", "z"])
+        r1 = vm.call(gfan, [f1], {})
+        r2 = vm.call(gfan, [f2], {})
+        r3 = vm.call(gfan, [f1], {})
+        ok = [vm.to_list(r) for r in (r1, r2, r3)] == [["a", "b"], ["x", "y", "z"], ["a", "b"]]
+        ctx.check("get_function_argument_names::answers-for-the-callable-it-is-given", z3.BoolVal(ok), detail=f"{r1} {r2} {r3}")
+    return Harness("argument-names", run, spec=Spec())
+
+
 # ------------------------------------------------------------------ symbolic_function
 def h_symbolic_function():
     def run(vm):
@@ -181,9 +206,8 @@ def h_symbolic_function():
         for n in range(1, 4):
             params = [f"p{i}" for i in range(n)]
             for p, kw in splits(n):
-                if len(kw) + p != n:
-                    continue   # a plain function needs all its parameters
-                for var_at in [None] + list(range(n)):
+                given = list(range(p)) + kw
+                for var_at in [None] + given:
                     fn = UserFn("userfn", params)
                     wrapper = vm.call(deco, [fn], {})
                     vals = [UserVal(f"a{i}") for i in range(n)]
@@ -201,7 +225,7 @@ def h_symbolic_function():
                         ctx.check("symbolic_function::concrete-call-runs-once-and-returns-plain-result", z3.BoolVal(ok),
                                   detail=f"{shape}: calls={fn.calls} r={r!r} made={made}")
                     else:
-                        expected = {params[i]: vals[i] for i in range(n)}
+                        expected = {params[i]: vals[i] for i in given}
                         ok_var = isinstance(r, Obj) and r.cls is Var and len(made) == 1
                         ctx.check("symbolic_function::variable-argument-returns-condition-without-running", z3.BoolVal(ok_var and not fn.calls),
                                   detail=f"{shape}: r={r!r} calls={fn.calls}")
@@ -375,7 +399,7 @@ def h_canary():
 
 
 def harnesses():
-    hs = [h_merge(), h_symbolic_function(), h_predicate_new()]
+    hs = [h_merge(), h_argument_names(), h_symbolic_function(), h_predicate_new()]
     for kind in ("function", "predicate"):
         for n in (1, 2, 3):
             hs.append(h_instantiate(kind, n))
